@@ -410,7 +410,7 @@ Fixpoint qp_loop (fuel : nat) (m : bytes) (b len : nat) (inner : bool) (idx chun
   end.
 
 Definition recode_qp (m : bytes) (b len : nat) (st : St) : Cres St :=
-  if Nat.eqb len 0 then Ok st else qp_loop (4 * len + 4) m b len false 0 0 0 0 [] st.
+  if Nat.eqb len 0 then Ok st else qp_loop (6 * len + 6) m b len false 0 0 0 0 [] st.
 
 (* ------------------------------------------------------------------ skip_tpad *)
 Fixpoint tpad_blanks (fuel : nat) (m : bytes) (b len off : nat) : Cres nat :=
